@@ -1,5 +1,6 @@
 import CoxeterVerif.Lemmas.CovarianceSim
-import CoxeterVerif.Props.C05
+import CoxeterVerif.Lemmas.Inside3DCert
+import CoxeterVerif.Lemmas.Inside3DGlue
 /-!
   Helper lemmas for C09, part 5: the 3-D containment models of C05 (`Model/Inside3D.lean`, imported
   unchanged) under a proper similarity `g : x ↦ k R x + t` (`Sim`, `Sim.Proper`).
@@ -57,10 +58,18 @@ theorem cp_isInside1 (eqs : List (Plane ℝ)) (p : V3 ℝ) :
   simp only [Function.comp, Scalar.lit, Scalar.ofNat_real, Nat.cast_zero]
   exact decide_pos_mul_le_zero hg.kpos d
 
+omit hg in
+/-- (`cp_batch_eq_map_single` of `Props/C05`, restated here so that this file needs C05's lemma files only: `Props/C05`
+and `Props/C06` cannot be imported together — both declare a root-level `winding_additive`) -/
+theorem cp_batch (eqs : List (Plane ℝ)) (pts : List (V3 ℝ)) :
+    CP.isInside eqs pts = pts.map (CP.isInside1 eqs) := by
+  unfold CP.isInside CP.isInside1
+  simp only [List.map_map]; rfl
+
 /-- `ConvexPolyhedron.is_inside`, the batch as NumPy computes it -/
 theorem cp_isInside (eqs : List (Plane ℝ)) (pts : List (V3 ℝ)) :
     CP.isInside (eqs.map g.plane) (pts.map g.pt) = CP.isInside eqs pts := by
-  rw [cp_batch_eq_map_single, cp_batch_eq_map_single, List.map_map]
+  rw [cp_batch, cp_batch, List.map_map]
   apply List.map_congr_left
   intro p _
   exact cp_isInside1 hg eqs p
@@ -175,7 +184,13 @@ theorem poly_isInside1 {S : List (Tri ℝ)} {Ts : List (Tet ℝ)}
     rw [orient_sim hg]
     exact mul_nonneg (k3pos hg).le (hor U hU)
   have hoff' : offCone (Ts.map g.tet) (g.pt p) = true := by rw [offCone_sim hg]; exact hoff
-  rw [Bool.eq_iff_iff, poly_inside_iff hch hor' (g.pt p) hoff', poly_inside_iff h hor p hoff, inTets_sim hg]
+  -- `poly_inside_iff` of `Props/C05`, through the lemmas it is proved from
+  have iff : ∀ {S : List (Tri ℝ)} {Ts : List (Tet ℝ)}, ChainEq S (Ts.flatMap Tet.bdry) →
+      (∀ T ∈ Ts, 0 ≤ orient T.a T.b T.c T.d) → ∀ p : V3 ℝ, offCone Ts p = true →
+      (Poly.isInside1 S p = true ↔ inTets Ts p = true) := by
+    intro S Ts h hor p hoff
+    rw [isInside1_iff_signedCount' h p hoff, signedCount_eq_count Ts p hor, countTets_ne_zero_iff]
+  rw [Bool.eq_iff_iff, iff hch hor' (g.pt p) hoff', iff h hor p hoff, inTets_sim hg]
 
 end Sim
 
